@@ -488,5 +488,133 @@ theorem fromOneAxis_proper (sqrt : K → K) (hs : SqrtSpec sqrt) (u : Vec3 K) (h
   refine ⟨triple_proper u w hn hpu hpo a, ?_⟩
   cases a <;> simp [Mat33.ofAxisCols, Mat33.ofFn, Mat33.col, Vec3.get]
 
+omit [LinearOrder K] [IsStrictOrderedRing K] in
+theorem normalize_dot (sqrt : K → K) (v w : Vec3 K) :
+    (Vec3.normalize sqrt v).dot w = v.dot w / sqrt (v.dot v) := by
+  simp only [Vec3.normalize, Vec3.normSq, Vec3.divS, Vec3.dot]; ring
+
+/-- **`setRotationFromTwoAxes`** (every branch: fallback to one axis when the second vector is zero, the axes
+coincide or the vectors are nearly parallel; otherwise the cross-product construction with or without the
+axis swap) gives a proper rotation whose `axisi` column is the given unit vector -/
+theorem fromTwoAxes_proper (sqrt : K → K) (hs : SqrtSpec sqrt) (sqrtEps : K) (he : 0 < sqrtEps) (u : Vec3 K)
+    (hn : u.dot u = 1) (axi : Axis) (vj : Vec3 K) (axj : Axis) (vjZero : Bool)
+    (hz : vjZero = false → 0 < vj.dot vj) :
+    IsProper (fromTwoAxes sqrt sqrtEps u axi vj axj vjZero) ∧ (fromTwoAxes sqrt sqrtEps u axi vj axj vjZero).col axi = u := by
+  unfold fromTwoAxes
+  simp only []
+  split_ifs with c1 c2 c3
+  · exact fromOneAxis_proper sqrt hs u hn axi
+  · exact fromOneAxis_proper sqrt hs u hn axi
+  all_goals
+    have hvz : vjZero = false := by
+      cases vjZero
+      · rfl
+      · exact absurd (Or.inl rfl) c1
+    have hvj := hz hvz
+    have hck : 0 < (u.cross vj).dot (u.cross vj) := by
+      have : sqrtEps * vj.normSq ≤ (u.cross vj).normSq := not_lt.mp c2
+      have h2 : 0 < sqrtEps * vj.normSq := mul_pos he hvj
+      exact lt_of_lt_of_le h2 this
+    have huk1 := normalize_unit sqrt hs (u.cross vj) hck
+    have huk0 : (Vec3.normalize sqrt (u.cross vj)).dot u = 0 := by
+      rw [normalize_dot]
+      have : (u.cross vj).dot u = 0 := by simp only [Vec3.cross, Vec3.dot]; ring
+      rw [this, zero_div]
+    generalize Vec3.normalize sqrt (u.cross vj) = uk at huk1 huk0
+    have hcross : (uk.cross u).dot (uk.cross u) = 1 := by
+      simp only [Vec3.dot, Vec3.cross] at *
+      linear_combination (u.x * u.x + u.y * u.y + u.z * u.z) * huk1 + hn - (uk.x * u.x + uk.y * u.y + uk.z * u.z) * huk0
+    have hnorm : Vec3.normalize sqrt (uk.cross u) = uk.cross u := by
+      simp only [Vec3.normalize, Vec3.normSq, hcross, sqrt_one sqrt hs, Vec3.divS, div_one]
+    simp only [hnorm]
+    have huj0 : u.dot (uk.cross u) = 0 := by simp only [Vec3.cross, Vec3.dot]; ring
+  · -- axes swapped: columns (axisi, next, next.next) = (u, -uk, uk × u)
+    have e : Mat33.ofAxisCols axi u axi.next.next (uk.cross u) uk.neg
+        = Mat33.ofAxisCols axi u axi.next uk.neg (u.cross uk.neg) := by
+      cases axi <;> simp [Mat33.ofAxisCols, Mat33.ofFn, Vec3.get, Axis.next, Vec3.cross, Vec3.neg, -Mat33.mk.injEq] <;>
+        (ext <;> simp only [] <;> ring1)
+    rw [e]
+    refine ⟨triple_proper u uk.neg hn ?_ ?_ axi, ?_⟩
+    · simp only [Vec3.dot, Vec3.neg] at *; linear_combination huk1
+    · simp only [Vec3.dot, Vec3.neg] at *; linear_combination -huk0
+    · cases axi <;> simp [Mat33.ofAxisCols, Mat33.ofFn, Mat33.col, Vec3.get, Axis.next]
+  · -- natural order: columns (u, uk × u, uk) and uk = u × (uk × u)
+    have e : uk = u.cross (uk.cross u) := by
+      simp only [Vec3.dot, Vec3.cross] at *
+      ext <;> simp only []
+      · linear_combination -uk.x * hn + u.x * huk0
+      · linear_combination -uk.y * hn + u.y * huk0
+      · linear_combination -uk.z * hn + u.z * huk0
+    have e2 : Mat33.ofAxisCols axi u axi.next (uk.cross u) uk
+        = Mat33.ofAxisCols axi u axi.next (uk.cross u) (u.cross (uk.cross u)) := by rw [← e]
+    rw [e2]
+    refine ⟨triple_proper u (uk.cross u) hn hcross huj0 axi, ?_⟩
+    cases axi <;> simp [Mat33.ofAxisCols, Mat33.ofFn, Mat33.col, Vec3.get, Axis.next]
 end Ordered
+
+/-! ## Rotation → angles: what `atan2` is handed -/
+section Field
+variable {K : Type} [Field K]
+
+/-- `convertOneAxisRotationToOneAngle` recovers exactly the trig pair the rotation was built from -/
+theorem oneAngleArgs_aboutAxis (t : Trig K) (a : Axis) (h2 : (2 : K) ≠ 0) :
+    oneAngleArgs (aboutAxis t a) a = (t.s, t.c) := by
+  cases a <;> simp [oneAngleArgs, aboutAxis, Mat33.get, Axis.next] <;> constructor <;> field_simp <;> ring
+
+/-- **three distinct axes** (`i j k`, body-fixed, forward or reverse cyclic — all six): the pairs handed to
+`atan2` by `convertThreeAxesBodyFixedRotationToThreeAngles` are `cos θ₂ · (sin θ₁, cos θ₁)`,
+`(sin θ₂, ·)` and `cos θ₂ · (sin θ₃, cos θ₃)`, and `Rsum² = cos² θ₂`: for `cos θ₂ > 0` the extraction returns the
+angles the rotation was built from; `cos θ₂ = 0` is exactly the singular case the code tests for -/
+theorem threeAxes_extraction_args (t1 t2 t3 : Trig K) (h1 : TrigValid t1) (h3 : TrigValid t3) (i j : Axis) (hij : i ≠ j) :
+    let k := i.third j
+    let R := fromThreeAngles false t1 i t2 j t3 k
+    let pm : K := if i.isReverseCyclical j then -1 else 1
+    let mp : K := if i.isReverseCyclical j then 1 else -1
+    mp * R.get j k = t1.s * t2.c ∧ R.get k k = t1.c * t2.c ∧ pm * R.get i k = t2.s ∧
+    mp * R.get i j = t3.s * t2.c ∧ R.get i i = t3.c * t2.c ∧
+    Rotation.sq (R.get i i) + Rotation.sq (R.get i j) + Rotation.sq (R.get j k) + Rotation.sq (R.get k k) = 2 * (t2.c * t2.c) := by
+  unfold TrigValid at h1 h3
+  cases i <;> cases j <;> first | exact absurd rfl hij | skip
+  all_goals
+    simp [fromThreeAngles, threeAngleThreeAxesBodyFwd, Mat33.place, Mat33.ofFn, Mat33.get, Axis.pos, Axis.third,
+      Axis.next, Axis.isReverseCyclical, Axis.prev, Trig.neg, Rotation.sq]
+    try ((repeat' constructor) <;> first | ring1 | linear_combination (t2.c * t2.c) * h1 + (t2.c * t2.c) * h3)
+
+/-- **two distinct axes** (`i j i`, all six): the pairs handed to `atan2` by
+`convertTwoAxesBodyFixedRotationToThreeAngles` are `sin θ₂ · (sin θ₁, cos θ₁)`, `sin θ₂ · (sin θ₃, cos θ₃)`, and
+`Rsum² = sin² θ₂`, `R[i][i] = cos θ₂` -/
+theorem twoAxes_extraction_args (t1 t2 t3 : Trig K) (h1 : TrigValid t1) (h3 : TrigValid t3) (i j : Axis) (hij : i ≠ j) :
+    let k := i.third j
+    let R := fromThreeAngles false t1 i t2 j t3 i
+    let pm : K := if i.isReverseCyclical j then -1 else 1
+    let mp : K := if i.isReverseCyclical j then 1 else -1
+    R.get j i = t1.s * t2.s ∧ mp * R.get k i = t1.c * t2.s ∧
+    R.get i j = t3.s * t2.s ∧ pm * R.get i k = t3.c * t2.s ∧ R.get i i = t2.c ∧
+    Rotation.sq (R.get i j) + Rotation.sq (R.get i k) + Rotation.sq (R.get j i) + Rotation.sq (R.get k i) = 2 * (t2.s * t2.s) := by
+  unfold TrigValid at h1 h3
+  cases i <;> cases j <;> first | exact absurd rfl hij | skip
+  all_goals
+    simp [fromThreeAngles, threeAngleTwoAxesBodyFwd, Mat33.place, Mat33.ofFn, Mat33.get, Axis.pos, Axis.third,
+      Axis.next, Axis.isReverseCyclical, Axis.prev, Trig.neg, Rotation.sq]
+    try ((repeat' constructor) <;> first | ring1 | linear_combination (t2.s * t2.s) * h1 + (t2.s * t2.s) * h3)
+end Field
+
+/-! ## Non-vacuity of the hypotheses used above -/
+
+/-- a valid trig pair, a unit quaternion and a unit vector exist (3-4-5 triangle; `SqrtSpec` is satisfiable on
+every input the theorems feed it, e.g. by the real square root — here checked on the concrete rational instance) -/
+example : TrigValid (⟨3 / 5, 4 / 5⟩ : Trig Rat) := by norm_num [TrigValid]
+example : (⟨1 / 2, 1 / 2, 1 / 2, 1 / 2⟩ : Quaternion Rat).normSq = 1 := by norm_num [Quaternion.normSq]
+example : (⟨3 / 5, 0, 4 / 5⟩ : Vec3 Rat).dot ⟨3 / 5, 0, 4 / 5⟩ = 1 := by norm_num [Vec3.dot]
+example : IsProper (aboutAxis (⟨3 / 5, 4 / 5⟩ : Trig Rat) .Z) := aboutAxis_proper _ (by norm_num [TrigValid]) _
+/-- the four branches of the extraction are all reachable -/
+example : quatBranch (fromQuaternion (⟨1, 0, 0, 0⟩ : Quaternion Rat)) = 0 := by
+  simp [quatBranch, fromQuaternion, Mat33.trace]
+example : quatBranch (fromQuaternion (⟨0, 1, 0, 0⟩ : Quaternion Rat)) = 1 := by
+  simp [quatBranch, fromQuaternion, Mat33.trace]
+example : quatBranch (fromQuaternion (⟨0, 0, 1, 0⟩ : Quaternion Rat)) = 2 := by
+  simp [quatBranch, fromQuaternion, Mat33.trace]
+example : quatBranch (fromQuaternion (⟨0, 0, 0, 1⟩ : Quaternion Rat)) = 3 := by
+  simp [quatBranch, fromQuaternion, Mat33.trace]
+
 end C27
